@@ -286,7 +286,7 @@ def c13(ctx):
 
 
 def mc_calls(ctx, name, junk, maxlen, maxcalls, invariants, maxjunk=2):
-    consts = {"MaxLen": maxlen, "Sigma": SIGMA12, "MaxCalls": maxcalls, "JunkMode": "TRUE" if junk else "FALSE", "JunkBytes": "{144, 160, 255}", "MaxJunk": maxjunk}
+    consts = {"MaxLen": maxlen, "Sigma": SIGMA12, "MaxCalls": maxcalls, "JunkMode": "TRUE" if junk else "FALSE", "JunkBytes": "{144, 160, 255, 1, 16}", "MaxJunk": maxjunk}
     r = C.tlc_mc(ctx.prop + "_" + name, "MC_ReaderCalls", cfg(constants=consts, invariants=invariants), workers=12, timeout=3000, heap="12g", coverage=False)
     ctx.add_mc(r)
     return r
